@@ -171,15 +171,27 @@ impl Engine for AppenderEngine {
         let max_lines = if g.tier == "thorough" { 12 } else { 8 };
         let mut steps: Vec<Value> = vec![];
         let mut per: Vec<u64> = vec![0; producers as usize + 1];
-        let total = rng.range(1, max_lines * producers.min(2));
-        let drop_at = rng.below(total + 2);
+        // slow-handshake shape (must-hold runs): the queue can never fill (capacity 8, at most 7 lines), the sink is
+        // stalled for 150-800 ms right at the start and the guard is dropped into that stall - so enqueueing the
+        // shutdown message cannot wait, and the handshake takes longer than the first documented timeout (100 ms)
+        // but less than the second (1 s)
+        let slow = !stall && !probe_f9 && rng.chance(1, 6);
+        let cap = if slow { 8 } else { cap };
+        let total = if slow { rng.range(1, 7) } else { rng.range(1, max_lines * producers.min(2)) };
+        let drop_at = if slow { 0 } else { rng.below(total + 2) };
         let mut dropped = false;
+        if slow {
+            steps.push(json!({"t": 0, "op": "gate", "ns": rng.range(150, 800) * 1_000_000}));
+            if rng.chance(1, 2) {
+                steps.push(json!({"t": 0, "op": "sleep", "ns": rng.range(0, 40) * 1_000_000}));
+            }
+        }
         for i in 0..total {
             if i == drop_at {
                 steps.push(json!({"t": 0, "op": "drop_guard"}));
                 dropped = true;
             }
-            match rng.below(12) {
+            match if slow { 11 } else { rng.below(12) } {
                 0 => {
                     let ns = if stall { rng.range(120, 1500) * 1_000_000 } else { rng.range(1, 30) * 1_000_000 };
                     steps.push(json!({"t": 0, "op": "gate", "ns": ns}));
